@@ -20,6 +20,9 @@ arbitrary, the source at ANY address).  `m` = number of characters the call woul
   `c = min(m + 1, dmax - dl)` cells appended and the `c` source cells meet (`CatC07`); the same `_iff` / `_partial` /
   `_witness` for the bounded ones; `*_C07_unterm`: dest without a NUL in `dmax` cells — ESOVRLP exactly when the scan runs
   into `src` (`dest < src < dest + dmax`), else ESUNTERM, dest cleared either way.
+* `*_C07_noterm` — the unbounded functions on a source WITHOUT a terminator in the cells the loop gets to read: ESOVRLP
+  when the copy reaches the other operand inside dest, else ESNOSPC.  Together with `_exact` / `_all` this covers every
+  content of the source.
 -/
 namespace SafeC.Props.C07
 open SafeC Gen
@@ -591,5 +594,103 @@ example : (∀ a, endSt.mapped a = true ∧ endSt.rd a = true) ∧ RW endSt 106 
   · intro j hj
     have : j = 0 := by omega
     subst this; decide
+
+/-! ## a source WITHOUT a terminator (the unbounded functions; the bounded ones are covered by `slen = m` above) -/
+
+/-- a failing exit with the code `if g < k then ESOVRLP else ESNOSPC` -/
+def NotermPost (cfg : Cfg) (dest dmax g k : Nat) (st st' : St) (code : Nat) : Prop :=
+  code = (if g < k then ESOVRLP else ESNOSPC) ∧
+  st'.data dest = 0 ∧ (cfg.slack = true → ∀ i, i < dmax → st'.data (dest + i) = 0) ∧
+  st'.events = st.events ++ [.handler .str code] ∧ st'.strays = st.strays ∧
+  (∀ a, ¬ (dest ≤ a ∧ a < dest + dmax) → st'.data a = st.data a)
+
+private theorem noterm_of {cfg : Cfg} {dest dmax g k : Nat} {st st' : St} {code : Nat}
+    (hc : code = (if g < k then ESOVRLP else ESNOSPC)) (hp : ClearedPost cfg dest dmax code st st') :
+    NotermPost cfg dest dmax g k st st' code :=
+  ⟨hc, hp.2.2.1, hp.2.2.2.1, hp.2.1, hp.1, hp.2.2.2.2⟩
+
+/-- **strcpy_s on a source that holds no NUL in the cells the loop gets to read** (`g` = pointer distance; the first
+`min g dmax` source cells non-NUL, anything behind): ESOVRLP when the copy reaches the other operand inside dest
+(`g < dmax`), else ESNOSPC; dest cleared, one handler event — never EOK, never a read or write past the bumper -/
+theorem strcpy_s_C07_noterm (cfg : Cfg) (dest dmax src g : Nat) (destbos : Bos) (st : St)
+    (hall : ∀ a, st.mapped a = true ∧ st.rd a = true)
+    (hd : dest ≠ 0) (hs : src ≠ 0) (hpos : 0 < dmax) (hle : dmax ≤ RSIZE_MAX_STR)
+    (hb : ∀ b, destbos = some b → dmax ≤ b)
+    (hrw : RW st dest dmax)
+    (hg : 0 < g ∧ ((dest < src ∧ src = dest + g) ∨ (src ≤ dest ∧ dest = src + g)))
+    (hnz : ∀ j, j < g → j < dmax → st.data (src + j) ≠ 0) :
+    ∃ code st', exec (strcpy_s cfg dest dmax src destbos) st = .ok (code, st') ∧
+      NotermPost cfg dest dmax g dmax st st' code := by
+  unfold strcpy_s
+  rw [strcpyG_eq_body _ cfg dest dmax src destbos hd hs (by omega) hpos hle hb]
+  obtain ⟨code, st', he, hc, hp⟩ := cpyBody_noterm cfg dest dmax src g st hall hpos hrw hg.2 hnz
+  exact ⟨code, st', he, noterm_of hc hp⟩
+
+/-- the wide twin of `strcpy_s_C07_noterm` -/
+theorem wcscpy_s_C07_noterm (cfg : Cfg) (dest dmax src g : Nat) (destbos : Bos) (st : St)
+    (hall : ∀ a, st.mapped a = true ∧ st.rd a = true)
+    (hd : dest ≠ 0) (hs : src ≠ 0) (hpos : 0 < dmax) (hle : dmax ≤ RSIZE_MAX_WSTR)
+    (hb : ∀ b, destbos = some b → dmax * SIZEOF_WCHAR_T ≤ b)
+    (hrw : RW st dest dmax)
+    (hg : 0 < g ∧ ((dest < src ∧ src = dest + g) ∨ (src ≤ dest ∧ dest = src + g)))
+    (hnz : ∀ j, j < g → j < dmax → st.data (src + j) ≠ 0) :
+    ∃ code st', exec (wcscpy_s cfg dest dmax src destbos) st = .ok (code, st') ∧
+      NotermPost cfg dest dmax g dmax st st' code := by
+  rw [wcscpy_s_eq_body cfg dest dmax src destbos hd hs (by omega) hpos hle hb]
+  obtain ⟨code, st', he, hc, hp⟩ := cpyBody_noterm cfg dest dmax src g st hall hpos hrw hg.2 hnz
+  exact ⟨code, st', he, noterm_of hc hp⟩
+
+/-- **strcat_s on a source that holds no NUL in the cells the loop gets to read**: dest string of length `dl`, `src`
+behind the dest string (`g` = distance from its terminator) or at/below dest (`g` = pointer distance; `src` INSIDE the
+dest string is ESOVRLP whatever the source holds: `strcat_s_overlap`); the first `min g (dmax - dl)` source cells
+non-NUL: ESOVRLP when `g < dmax - dl`, else ESNOSPC; dest cleared -/
+theorem strcat_s_C07_noterm (cfg : Cfg) (dest dmax src dl g : Nat) (destbos : Bos) (st : St)
+    (hall : ∀ a, st.mapped a = true ∧ st.rd a = true)
+    (hd : dest ≠ 0) (hs : src ≠ 0) (hpos : 0 < dmax) (hle : dmax ≤ RSIZE_MAX_STR)
+    (hb : ∀ b, destbos = some b → dmax ≤ b)
+    (hrw : RW st dest dmax)
+    (hdl : dl < dmax) (hdnz : ∀ j, j < dl → st.data (dest + j) ≠ 0) (hdnul : st.data (dest + dl) = 0)
+    (hg : (dest < src ∧ src = dest + dl + g) ∨ (src ≤ dest ∧ dest = src + g))
+    (hnz : ∀ j, j < g → j < dmax - dl → st.data (src + j) ≠ 0) :
+    ∃ code st', exec (strcat_s cfg dest dmax src destbos) st = .ok (code, st') ∧
+      NotermPost cfg dest dmax g (dmax - dl) st st' code := by
+  unfold strcat_s
+  rw [strcatG_eq_body _ cfg dest dmax src destbos hd hs hpos hle hb]
+  obtain ⟨code, st', he, hc, hp⟩ := catBody_noterm cfg dest dmax src dl g st hall hpos hrw hdl hdnz hdnul hg hnz
+  exact ⟨code, st', he, noterm_of hc hp⟩
+
+/-- the wide twin of `strcat_s_C07_noterm` -/
+theorem wcscat_s_C07_noterm (cfg : Cfg) (dest dmax src dl g : Nat) (destbos : Bos) (st : St)
+    (hall : ∀ a, st.mapped a = true ∧ st.rd a = true)
+    (hd : dest ≠ 0) (hs : src ≠ 0) (hpos : 0 < dmax) (hle : dmax ≤ RSIZE_MAX_WSTR)
+    (hb : ∀ b, destbos = some b → dmax * SIZEOF_WCHAR_T ≤ b)
+    (hrw : RW st dest dmax)
+    (hdl : dl < dmax) (hdnz : ∀ j, j < dl → st.data (dest + j) ≠ 0) (hdnul : st.data (dest + dl) = 0)
+    (hg : (dest < src ∧ src = dest + dl + g) ∨ (src ≤ dest ∧ dest = src + g))
+    (hnz : ∀ j, j < g → j < dmax - dl → st.data (src + j) ≠ 0) :
+    ∃ code st', exec (wcscat_s cfg dest dmax src destbos) st = .ok (code, st') ∧
+      NotermPost cfg dest dmax g (dmax - dl) st st' code := by
+  rw [wcscat_s_eq_body cfg dest dmax src destbos hd hs hpos hle hb]
+  obtain ⟨code, st', he, hc, hp⟩ := catBody_noterm cfg dest dmax src dl g st hall hpos hrw hdl hdnz hdnul hg hnz
+  exact ⟨code, st', he, noterm_of hc hp⟩
+
+/-- memory full of 'x' except the two cells 100, 101 (`dest`, writable) which hold "" and a NUL -/
+def fullSt : St :=
+  { data := fun a => if a = 100 ∨ a = 101 then 0 else 120
+    mapped := fun _ => true, rd := fun _ => true
+    wr := fun a => decide (100 ≤ a ∧ a < 102) }
+
+/-- non-vacuity of the `_noterm` theorems (`fullSt`, src = 300, `g = 200 ≥ dmax = 2`), and both outcomes as test
+instances: unterminated source far away → ESNOSPC; unterminated source one cell below dest → ESOVRLP -/
+example : (∀ a, fullSt.mapped a = true ∧ fullSt.rd a = true) ∧ RW fullSt 100 2 ∧ fullSt.data (100 + 0) = 0 ∧
+    (∀ j, j < 200 → j < 2 → fullSt.data (300 + j) ≠ 0) ∧
+    retCode (exec (strcpy_s {} 100 2 300 none) fullSt) = some ESNOSPC ∧
+    retCode (exec (strcat_s {} 100 2 300 none) fullSt) = some ESNOSPC ∧
+    retCode (exec (strcpy_s {} 100 2 99 none) fullSt) = some ESOVRLP := by
+  refine ⟨fun _ => ⟨rfl, rfl⟩, fun i hi => ⟨rfl, ?_, rfl⟩, by decide, ?_, by decide, by decide, by decide⟩
+  · simp [fullSt]; omega
+  · intro j _ hj
+    have : j = 0 ∨ j = 1 := by omega
+    rcases this with h | h <;> subst h <;> decide
 
 end SafeC.Props.C07
